@@ -26,7 +26,7 @@ PROPS = {
     },
     "C05": {
         "test": "TestC05",
-        "lean_modules": ["Gittuf.Props.C05", "Gittuf.Proofs.SigComplete"],
+        "lean_modules": ["Gittuf.Props.C05", "Gittuf.Proofs.SigComplete", "Gittuf.Proofs.SigCompleteGit"],
         "n": {"quick": 1200, "thorough": 24000},
         "rule": "random rules over <=4 principals (Key / Person with 1-2 keys, shared or disjoint keys), thresholds 0..5, "
                 "Git signer in {trusted, untrusted, unsigned, no object}, envelopes with <=5 signatures incl. untrusted keys, "
